@@ -299,6 +299,11 @@ def check_pair(case, rec, nontrivial="c08", enum=False):
         with libcall(name):
             got = fn(a, b)
         _verify(name, got, want, (a, b), (la, lb))
+        if la == lb:
+            # identical operands are also passed as one and the same array object
+            with libcall(name + " (one object as both operands)"):
+                got = fn(a, a)
+            _verify(name + " (one object as both operands)", got, want, (a,), (la,))
     overlap = bool(la) and bool(lb) and la[0] <= lb[-1] and lb[0] <= la[-1]
     if nontrivial == "c08":
         nt = overlap
@@ -370,6 +375,21 @@ def check_wrap(case, rec):
     if got is not None and lb is None and case["cl"] and numpy.shares_memory(got, a):
         raise Violation("difference(a, None, copy=True) shares memory with a",
                         sig="difference copy not a copy")
+    if la is not None and la == lb:
+        # identical operands are also passed as one and the same array object
+        a, _ = mk()
+        with libcall("union (one object as both operands)"):
+            got = so.union(a, a, copy_left=case["cl"], copy_right=case["cr"])
+        verify_opt("union (one object as both operands)", got, sorted(sa), not sa, (a,))
+        a, _ = mk()
+        with libcall("intersection (one object as both operands)"):
+            got = so.intersection(a, a)
+        verify_opt("intersection (one object as both operands)", got, sorted(sa), not sa, (a,))
+        a, _ = mk()
+        with libcall("difference (one object as both operands)"):
+            got = so.difference(a, a, copy=case["cl"])
+        verify_opt("difference (one object as both operands)", got, [], True, (a,))
+        rec.note("one object as both operands")
     rec.note("a_none" if la is None else "a_arr", "b_none" if lb is None else "b_arr")
     if la is None or lb is None or not (sa & sb) or not (sa - sb):
         rec.nontrivial({"a": la, "b": lb, "cl": case["cl"], "cr": case["cr"]})
